@@ -37,7 +37,7 @@
 (*   black-box traces uses FALSE so that a different choice rule is not a  *)
 (*   false alarm.                                                          *)
 (***************************************************************************)
-EXTENDS Integers, Sequences, FiniteSets, TLC
+EXTENDS FaultsDefs, Integers, Sequences, FiniteSets, TLC
 
 CONSTANTS
   Callers,      \* set of caller ids (each caller performs one Check)
@@ -63,18 +63,8 @@ VARIABLES
 vars == <<desc, count, list, pc, call, prunes, fired, hits, avail, expired, clock, startAt, endAt>>
 
 Ids == DOMAIN desc
-Range(s) == {s[i] : i \in DOMAIN s}
-Min(a, b) == IF a < b THEN a ELSE b
-Max(a, b) == IF a > b THEN a ELSE b
 
-(***************************************************************************)
-(* The matching rule of the property statement: the operation is equal and *)
-(* EVERY injected parameter is present in the call with an equal value     *)
-(* (the call may have more parameters).  description.go:match additionally *)
-(* requires Count > 0 (see Cand).                                          *)
-(***************************************************************************)
-ParamsMatch(dp, cp) == \A k \in DOMAIN dp : k \in DOMAIN cp /\ cp[k] = dp[k]
-Matches(d, cl) == d.op = cl.op /\ ParamsMatch(d.params, cl.params)
+\* Matches(d, call), ParamsMatch, Min, Max, Range: module FaultsDefs
 
 \* Set.match: candidates in list order
 Cand(cl) == SelectSeq(list, LAMBDA i : count[i] > 0 /\ Matches(desc[i], cl))
